@@ -198,51 +198,124 @@ Definition base_inst (d : desc) : inst :=
 
 Definition w64 (w : N) : N := if w =? 64 then 2 else 0.
 
+(** VGPRs occupied by a DS data operand of the given width *)
+Definition regs_of_width (w : N) : N :=
+  if w =? 64 then 2 else if w =? 96 then 3 else if w =? 128 then 4 else 1.
+
+(** DS instructions with two separate 8-bit offsets (ISA, LDS/GDS table):
+    ds_write2[st64]_b32/b64, ds_wrxchg2[st64]_rtn_b32/b64, ds_read2[st64]_b32/b64;
+    all others have one 16-bit offset offset1:offset0 *)
+Definition ds_dual_offset (op : N) : bool :=
+  existsb (N.eqb op) [14; 15; 46; 47; 55; 56; 78; 79; 110; 111; 119; 120].
+
+(** SDWA selectors as byte/word masks: BYTE_0..3, WORD_0..1, DWORD *)
+Definition sel_mask (k : N) : N :=
+  nth (N.to_nat k) [255; 65280; 16711680; 4278190080; 65535; 4294901760; 4294967295] 0.
+
+(** a 7-bit scalar destination code as an operand description *)
+Definition sdst_opnd (c : N) : opnd := if c <=? 101 then PS c else PSpecial c.
+
 Import RecordSetNotations.
 
-(** Formats with a [decode_encode] theorem. Register counts: SOP2 "…64"
-    mnemonics use register pairs; SOP1/VOP1 follow the widths of the table row;
-    VOP1 conversions 4, 15, 16 (f64 on one side) are pairs on that side. *)
-Definition spec_inst (d : desc) : option inst :=
+(** The insts.Inst a description denotes.  Register counts: SOP2 "…64"
+    mnemonics use register pairs; SOP1/VOP1/VOP3 follow the widths of the table
+    row; VOP1 conversions 4, 15, 16 (f64 on one side) are pairs on that side;
+    SMEM/FLAT by opcode (smem_cnt, flat_cnt); DS by width.  [cdna3] only
+    matters for the address register count of FLAT. *)
+Definition spec_inst (cdna3 : bool) (d : desc) : inst :=
   let b := base_inst d in
   match d with
   | DSop2 r dst s0 s1 =>
       let c := if contains "64" (r_name r) then 2 else 0 in
-      Some (b <| i_src0 := Some (spec_operand s0 c) |> <| i_src1 := Some (spec_operand s1 c) |>
-              <| i_dst := Some (spec_operand dst c) |>)
+      b <| i_src0 := Some (spec_operand s0 c) |> <| i_src1 := Some (spec_operand s1 c) |>
+        <| i_dst := Some (spec_operand dst c) |>
   | DSopk r dst simm =>
-      Some (b <| i_simm16 := Some (new_int 0 (Z.of_N simm)) |> <| i_dst := Some (spec_operand dst 0) |>)
+      b <| i_simm16 := Some (new_int 0 (Z.of_N simm)) |> <| i_dst := Some (spec_operand dst 0) |>
   | DSop1 r dst s0 =>
-      Some (b <| i_src0 := Some (spec_operand s0 (w64 (r_src0w r))) |>
-              <| i_dst := Some (spec_operand dst (w64 (r_dstw r))) |>)
+      b <| i_src0 := Some (spec_operand s0 (w64 (r_src0w r))) |>
+        <| i_dst := Some (spec_operand dst (w64 (r_dstw r))) |>
   | DSopc r s0 s1 =>
-      Some (b <| i_src0 := Some (spec_operand s0 0) |> <| i_src1 := Some (spec_operand s1 0) |>)
+      b <| i_src0 := Some (spec_operand s0 0) |> <| i_src1 := Some (spec_operand s1 0) |>
   | DSopp r simm =>
       let b := b <| i_simm16 := Some (new_int 0 (Z.of_N simm)) |> in
-      Some (if r_opcode r =? 12
-            then b <| i_vmcnt := simm mod 16 |> <| i_lkgmcnt := (simm / 256) mod 32 |>
-            else b)
+      if r_opcode r =? 12
+      then b <| i_vmcnt := simm mod 16 |> <| i_lkgmcnt := (simm / 256) mod 32 |>
+      else b
   | DSmem r data sbase glc imm offset =>
-      Some (b <| i_glc := glc |> <| i_imm := imm |>
-              <| i_base := Some (mkOperand (2 * sbase) OTReg (Some (R_S0 + 2 * sbase)) 2 0 0%Z 0) |>
-              <| i_data := Some (spec_operand data (match smem_cnt (r_opcode r) with Some c => c | None => 0 end)) |>
-              <| i_offset := Some (if imm then new_int 0 (Z.of_N offset)
-                                   else mkOperand offset OTReg (Some (R_S0 + offset)) 1 0 0%Z 0) |>)
+      b <| i_glc := glc |> <| i_imm := imm |>
+        <| i_base := Some (mkOperand (2 * sbase) OTReg (Some (R_S0 + 2 * sbase)) 2 0 0%Z 0) |>
+        <| i_data := Some (spec_operand data (match smem_cnt (r_opcode r) with Some c => c | None => 0 end)) |>
+        <| i_offset := Some (if imm then new_int 0 (Z.of_N offset)
+                             else mkOperand offset OTReg (Some (R_S0 + offset)) 1 0 0%Z 0) |>
   | DVop1 r vdst s0 =>
       let c0 := if r_opcode r =? 15 then 2 else w64 (r_src0w r) in
       let cd := if (r_opcode r =? 4) || (r_opcode r =? 16) then 2 else w64 (r_dstw r) in
-      Some (b <| i_src0 := Some (spec_operand s0 c0) |>
-              <| i_dst := Some (if r_opcode r =? 2 then spec_operand (PS vdst) cd
-                                else spec_operand (PV vdst) cd) |>)
+      b <| i_src0 := Some (spec_operand s0 c0) |>
+        <| i_dst := Some (if r_opcode r =? 2 then spec_operand (PS vdst) cd
+                          else spec_operand (PV vdst) cd) |>
   | DVop2 r vdst s0 vsrc1 k =>
       let b := b <| i_src0 := Some (spec_operand s0 0) |> <| i_src1 := Some (spec_vgpr vsrc1 0) |>
                  <| i_dst := Some (spec_vgpr vdst 0) |> in
-      Some (if is_madk (r_opcode r)
-            then b <| i_imm := true |> <| i_src2 := Some (mkOperand 0 OTLit None 0 0 0%Z k) |>
-            else b)
+      if is_madk (r_opcode r)
+      then b <| i_imm := true |> <| i_src2 := Some (mkOperand 0 OTLit None 0 0 0%Z k) |>
+      else b
+  | DVop2Sdwa r vdst vsrc0 vsrc1 dst_sel dst_unused src0_sel src1_sel s0 s1 =>
+      b <| i_sdwa := true |>
+        <| i_dst_sel := sel_mask dst_sel |> <| i_dst_unused := dst_unused |>
+        <| i_src0_sel := sel_mask src0_sel |> <| i_src1_sel := sel_mask src1_sel |>
+        <| i_src0 := Some (if s0 then mkOperand vsrc0 OTReg (Some (R_S0 + vsrc0)) 0 0 0%Z 0
+                           else spec_vgpr vsrc0 0) |>
+        <| i_src1 := Some (if s1 then mkOperand vsrc1 OTReg (Some (R_S0 + vsrc1)) 0 0 0%Z 0
+                           else spec_vgpr vsrc1 0) |>
+        <| i_dst := Some (spec_vgpr vdst 0) |>
   | DVopc r s0 vsrc1 =>
-      Some (b <| i_src0 := Some (spec_operand s0 0) |> <| i_src1 := Some (spec_vgpr vsrc1 0) |>)
-  | _ => None
+      b <| i_src0 := Some (spec_operand s0 0) |> <| i_src1 := Some (spec_vgpr vsrc1 0) |>
+  | DVop3a r vdst abs opsel clamp s0 s1 s2 omod neg =>
+      let op := r_opcode r in
+      let b := b <| i_dst := Some (if op <=? 255 then spec_operand (PS vdst) (w64 (r_dstw r))
+                                   else spec_vgpr vdst (w64 (r_dstw r))) |>
+                 <| i_abs := abs |>
+                 <| i_src0_abs := N.testbit abs 0 |> <| i_src1_abs := N.testbit abs 1 |>
+                 <| i_src2_abs := N.testbit abs 2 |>
+                 <| i_clamp := clamp |>
+                 <| i_src0 := Some (spec_operand s0 (w64 (r_src0w r))) |>
+                 <| i_src1 := Some (spec_operand s1 (w64 (r_src1w r))) |>
+                 <| i_src2 := if r_src2w r =? 0 then None else Some (spec_operand s2 (w64 (r_src2w r))) |>
+                 <| i_omod := omod |> <| i_neg := neg |>
+                 <| i_src0_neg := N.testbit neg 0 |> <| i_src1_neg := N.testbit neg 1 |>
+                 <| i_src2_neg := N.testbit neg 2 |> in
+      (* VOP3P: op_sel[2:0] in bits 11-13, op_sel_hi[2] in bit 14, op_sel_hi[1:0] in the OMOD bits *)
+      if op =? 944 then b <| i_opsel := opsel mod 8 |> <| i_opselhi := omod + 4 * (opsel / 8) |>
+      else if (945 <=? op) && (op <=? 946) then b <| i_opsel := opsel mod 4 |> <| i_opselhi := omod |>
+      else b
+  | DVop3b r vdst sdst clamp s0 s1 s2 omod neg =>
+      let op := r_opcode r in
+      b <| i_dst := if 255 <? op then Some (spec_vgpr vdst (if r_dstw r =? 64 then 2 else 1)) else None |>
+        <| i_sdst := Some (spec_operand (sdst_opnd sdst) (w64 (r_sdstw r))) |>
+        <| i_clamp := clamp |>
+        <| i_src0 := Some (spec_operand s0 (w64 (r_src0w r))) |>
+        <| i_src1 := Some (spec_operand s1 (w64 (r_src1w r))) |>
+        <| i_src2 := if (255 <? op) && (0 <? r_src2w r) then Some (spec_operand s2 (w64 (r_src2w r))) else None |>
+        <| i_omod := omod |> <| i_neg := neg |>
+  | DDs r offset0 offset1 gds addr data0 data1 vdst =>
+      b <| i_offset0 := if ds_dual_offset (r_opcode r) then offset0 else offset0 + 256 * offset1 |>
+        <| i_offset1 := offset1 |>
+        <| i_gds := gds |>
+        <| i_addr := Some (spec_vgpr addr 1) |>
+        <| i_data := if 0 <? r_src0w r then Some (spec_vgpr data0 (regs_of_width (r_src0w r))) else None |>
+        <| i_data1 := if 0 <? r_src1w r then Some (spec_vgpr data1 (regs_of_width (r_src1w r))) else None |>
+        <| i_dst := if 0 <? r_dstw r then Some (spec_vgpr vdst (regs_of_width (r_dstw r))) else None |>
+  | DFlat r offset glc slc addr data saddr tfe vdst =>
+      let c := match flat_cnt (r_opcode r) with Some c => c | None => 0 end in
+      (* 13-bit signed offset, sign-extended to 32 bits; SADDR 0x7F = off (and 0 on GCN3):
+         the address is a VGPR pair, otherwise one VGPR holds an offset *)
+      let pair := if cdna3 then saddr =? 127 else (saddr =? 127) || (saddr =? 0) in
+      b <| i_offset0 := if 4096 <=? offset then offset + 4294959104 else offset |>
+        <| i_slc := slc |> <| i_glc := glc |> <| i_tfe := tfe |>
+        <| i_saddr := Some (new_int 0 (Z.of_N saddr)) |>
+        <| i_addr := Some (spec_vgpr addr (if pair then 2 else 1)) |>
+        <| i_dst := Some (spec_vgpr vdst c) |>
+        <| i_data := Some (spec_vgpr data c) |>
   end.
 
 (* ------------------------------------------------------------------ well-formed descriptions *)
@@ -260,6 +333,7 @@ Definition row_ok (t : fmt) (r : row) : bool :=
 Definition src8 (p : opnd) : bool := opnd_wf p && opnd_scalar p.   (* SSRC, 8 bits *)
 Definition src9 (p : opnd) : bool := opnd_wf p.                    (* SRC, 9 bits *)
 Definition sdst7 (p : opnd) : bool := opnd_wf p && opnd_sdst p.    (* SDST, 7 bits *)
+Definition src9nl (p : opnd) : bool := opnd_wf p && negb (opnd_is_lit p).  (* VOP3: no literal *)
 
 Definition wf (d : desc) : bool :=
   match d with
@@ -276,6 +350,29 @@ Definition wf (d : desc) : bool :=
   | DVop2 r vdst s0 vsrc1 k =>
       row_ok VOP2 r && src9 s0 && (vdst <=? 255) && (vsrc1 <=? 255) && (k <? 4294967296)
       && negb (opnd_is_lit s0 && is_madk (r_opcode r))
+  | DVop2Sdwa r vdst vsrc0 vsrc1 dst_sel dst_unused src0_sel src1_sel s0 s1 =>
+      row_ok VOP2 r && negb (is_madk (r_opcode r)) && (vdst <=? 255) && (vsrc0 <=? 255) && (vsrc1 <=? 255)
+      && (dst_sel <=? 6) && (dst_unused <=? 2) && (src0_sel <=? 6) && (src1_sel <=? 6)
+      && (negb s0 || (vsrc0 <=? 101)) && (negb s1 || (vsrc1 <=? 101))
   | DVopc r s0 vsrc1 => row_ok VOPC r && src9 s0 && (vsrc1 <=? 255)
-  | _ => false
+  | DVop3a r vdst abs opsel clamp s0 s1 s2 omod neg =>
+      row_ok VOP3a r && (if r_opcode r <=? 255 then vdst <=? 101 else vdst <=? 255)
+      && (abs <? 8) && (opsel <? 16) && src9nl s0 && src9nl s1 && src9nl s2 && (omod <? 4) && (neg <? 8)
+  | DVop3b r vdst sdst clamp s0 s1 s2 omod neg =>
+      row_ok VOP3b r && (vdst <=? 255) && sdst7 (sdst_opnd sdst)
+      && src9nl s0 && src9nl s1 && src9nl s2 && (omod <? 4) && (neg <? 8)
+  | DDs r offset0 offset1 gds addr data0 data1 vdst =>
+      row_ok DS r && (offset0 <=? 255) && (offset1 <=? 255) && (addr <=? 255) && (data0 <=? 255)
+      && (data1 <=? 255) && (vdst <=? 255)
+  | DFlat r offset glc slc addr data saddr tfe vdst =>
+      row_ok FLAT r && (offset <? 8192) && (addr <=? 255) && (data <=? 255) && (saddr <=? 127) && (vdst <=? 255)
+  end.
+
+(** the SDWA dword: the decoder reads the "SRC0 is an SGPR" flag from bit 30;
+    the GFX9 layout (and [words]) has it in bit 23.  decode∘encode holds for
+    SDWA descriptions whose SRC0 is a VGPR. *)
+Definition wf_sdwa_s0_vgpr (d : desc) : bool :=
+  match d with
+  | DVop2Sdwa _ _ _ _ _ _ _ _ s0 _ => negb s0
+  | _ => true
   end.
